@@ -159,8 +159,9 @@ end
 
 /-! ### generated Decode -/
 
-/-- fresh value of a field's Go type -/
-def zeroField (S : Schema) (f : Field) : Val :=
+/-- fresh value of a field's Go type; `sub id` is the zero value of an always-present (value-typed)
+sub-message of type `id` -/
+def zeroSlot (S : Schema) (sub : Nat → Val) (f : Field) : Val :=
   if f.inOneof then .none
   else if f.repeated then .list []
   else match f.kind with
@@ -169,20 +170,20 @@ def zeroField (S : Schema) (f : Field) : Val :=
       if f.pointer S then .none
       else if f.cat == 1 then .num (Time.timeCode Time.zeroUnix 0)
       else if f.cat == 2 then .num 0
-      else .msg ((S.msg id).fields.map fun _ => Val.none) []   -- refined by `zeroMsg`
+      else sub id
     | .scalar k => if f.pointer S then .none else k.zero
     | .enum => .num 0
 
-/-- `new(T)` for message type `id`, to depth `fuel` of always-present (value-typed) sub-messages -/
-def zeroMsg (S : Schema) : Nat → Nat → Val
+/-- `new(T)` for message type `id`, to depth `fuel` of always-present sub-messages -/
+def zeroMsgN (S : Schema) : Nat → Nat → Val
   | 0, _ => .msg [] []
-  | fuel + 1, id =>
-    .msg ((S.msg id).fields.map fun f =>
-      match f.kind with
-      | .message sub =>
-        if !f.inOneof && !f.repeated && !(f.pointer S) && f.cat == 0 then zeroMsg S fuel sub
-        else zeroField S f
-      | _ => zeroField S f) []
+  | fuel + 1, id => .msg ((S.msg id).fields.map fun f => zeroSlot S (zeroMsgN S fuel) f) []
+
+/-- `new(T)`: always-present nesting is acyclic (a cycle does not compile), so its depth is below
+the number of message types -/
+def zeroMsg (S : Schema) (id : Nat) : Val := zeroMsgN S (S.length + 1) id
+
+def zeroField (S : Schema) (f : Field) : Val := zeroSlot S (zeroMsg S) f
 
 def setSlot (m : Val) (i : Nat) (v : Val) : Val :=
   match m with
@@ -309,7 +310,7 @@ def decInner (S : Schema) : Nat → Field → DecM Val
       else if f.repeated then
         -- c.RepeatedMessage(num, func(c){ x := new(T); c.Loop(x.Decode); m.F = append(m.F, x) })
         let entry : DecM (List Val) := fun d xs => do
-          let (d, x) ← Dec.loop (decPass S fuel id) d (zeroMsg S (fuel + 1) id)
+          let (d, x) ← Dec.loop (decPass S fuel id) d (zeroMsg S id)
           return (d, xs ++ [x])
         do
           let (d, xs) ← Dec.repeatedMessage num entry d cur.list!
@@ -317,7 +318,7 @@ def decInner (S : Schema) : Nat → Field → DecM Val
       else if f.pointer S then
         -- c.Message(num, func(c){ if m.F == nil { m.F = new(T) }; m.F.Decode(c) })
         let fn : DecM Val := fun d cur => do
-          let x := match cur with | .some x => x | _ => zeroMsg S (fuel + 1) id
+          let x := match cur with | .some x => x | _ => zeroMsg S id
           let (d, x) ← decPass S fuel id d x
           return (d, .some x)
         Dec.message num fn d cur
